@@ -23,10 +23,34 @@ def judge_msgs(ctx, log_path):
     return recs
 
 
+def run_sink(ctx, replay_seed=None):
+    thorough = ctx.tier == "thorough"
+    n = 4000 if thorough else 400
+    logp = ctx.path("sink.ndjson")
+    ctx.driver("wire_driver", "asan", ["sink", "random", replay_seed if replay_seed is not None else ctx.seed, n, logp])
+    rej = ctx.validate("OscWireTrace", "OscWireTrace.cfg", logp)
+    recs = ctx.read_ndjson(logp)
+    for r in recs:
+        ctx.evaluations += 1
+        if r["need"] > r["cap"] or r["need"] > r["free"]:
+            ctx.nontrivial.add(("sink", r["what"], r["tags"], r["cap"], r["need"], r["pre"]))
+    for line, clauses in sorted(rej.items()):
+        r = recs[line - 1]
+        for c in clauses:
+            ctx.reject(dict(clause=c, what=r["what"], cap=r["cap"]), dict(kind="sink", seed=replay_seed if replay_seed is not None else ctx.seed),
+                       "clause %s fails for %s of a %d-byte message (tags ',%s') into a buffer of %d bytes, %d bytes free, %d message(s) queued before: got %s%s"
+                       % (c, r["what"], r["need"], r["tags"], r["cap"], r["free"], r["pre"], r["got"], (" - " + r["asan_what"]) if r.get("asan_what") else ""))
+    ctx.notes["sink_records"] = len(recs)
+    ctx.sample(dict(what=recs[-1]["what"], tags=recs[-1]["tags"], capacity=recs[-1]["cap"], needed=recs[-1]["need"], outcome=recs[-1]["got"]))
+    os.remove(logp)
+
+
 def run(ctx):
     if ctx.replay:
         case = json.load(open(ctx.replay))["case"]
-        if case.get("kind") == "msg":
+        if case.get("kind") == "sink":
+            run_sink(ctx, case["seed"])
+        elif case.get("kind") == "msg":
             p = ctx.write_ndjson("replay_in.ndjson", [dict(addr=case["addr"], args=case["args"])])
             ctx.driver("wire_driver", "asan", ["cap", "in", p, ctx.path("replay_log.ndjson")])
             judge_msgs(ctx, ctx.path("replay_log.ndjson"))
@@ -49,6 +73,8 @@ def run(ctx):
     ctx.notes["msg_engineA_vectors"] = len(vec)
     ctx.notes["msg_engineB_random_records"] = nrand
     ctx.sample(dict(addr=bytes(recs[-1]["addr"]).decode("latin1"), tags=C01.tags_of(recs[-1]), capacities=len(recs[-1].get("rets_a", []))))
+    # the library's own fixed buffers: ThreadLink::write / writeArray (MaxMsg) and RtData::reply / broadcast (8192 bytes)
+    run_sink(ctx)
     # bundle half: same bundles as C08, judged per capacity
     C08.run(ctx, as_cap=True)
     ctx.rule = ("every message of OscWireGen (%s) and seeded random messages x every capacity 0..needed+8 x the three constructors; every bundle of "
